@@ -34,6 +34,7 @@ def fmtEvt (s : St) (e : Evt) : String :=
     s!"ps({t},{snd},p{m.payload},{if m.sys then 1 else 0},u{e.userdata})"
   | .fd, _ => s!"fd(f{e.key},u{e.userdata})"
   | .tmr, _ => s!"tmr({e.key},u{e.userdata})"
+  | .task, _ => s!"task({e.key},{e.userdata + 100},u{e.userdata})"     -- the harness's task function returns its argument + 100
   | k, _ => s!"{repr k}({e.key},u{e.userdata})"
 
 def fmtOut (s : St) : Out → String
@@ -148,6 +149,17 @@ def parse (s : St) (line : String) : Except String (Option Op) :=
   | ["dereg_tmr", h, ns] => do
     let m ← h? h
     match ns.toNat? with | some ns => pure (some (.deregSrc m (ns > 0) .tmr ns)) | none => .error "bad-op"
+  | ["reg_task", h, n, fl, u] => do
+    let m ← h? h
+    match n.toNat?, idNat 'u' u with
+    | some n, some u =>
+      let (p, bits) := prioOf fl
+      -- (the function pointer is never NULL here; the model forces the one-shot flag)
+      pure (some (.regSrc m true { kind := .task, owner := m, key := n, prio := p.getD .norm, oneshot := false, userptr := u } bits))
+    | _, _ => .error "bad-op"
+  | ["dereg_task", h, n] => do
+    let m ← h? h
+    match n.toNat? with | some n => pure (some (.deregSrc m true .task n)) | none => .error "bad-op"
   | ["reg_sgn", h, n, fl, u] => do
     let m ← h? h
     match n.toNat?, idNat 'u' u with
@@ -217,7 +229,7 @@ def parseTok (tok : String) : BatchTok :=
   | [k, h, key] =>
     match key.toNat? with
     | some key =>
-      if k == "fd" then .src .fd h key .user else if k == "sgn" then .src .sgn h key .user
+      if k == "fd" then .src .fd h key .user else if k == "task" then .src .task h key .user else if k == "sgn" then .src .sgn h key .user
       else if k == "pid" then .src .pid h key .user else if k == "path" then .src .path h key .user else .bad tok
     | none => .bad tok
   | ["tmr", h, key, r] =>
